@@ -318,9 +318,7 @@ Definition unlinking (o : op) : bool :=
 
 (* ------------------------------------------------------------------ ClusterLoadAssignment *)
 Definition U32MAX : N := 4294967295.
-Definition U32MOD : N := 4294967296.
 Definition add_sat (a b : N) : N := if U32MAX - b <? a then U32MAX else a + b.   (* addUint32 *)
-Definition add_wrap (a b : N) : N := (a + b) mod U32MOD.                         (* uint32 += *)
 
 Record gw := { g_net : N; g_cluster : N; g_addr : N; g_port : N }.
 Definition gw_eqb (a b : gw) : bool :=
@@ -440,7 +438,6 @@ Definition localities (es : list ep) : list N := fold_left (fun acc e => ins_loc
 Definition in_loc (l : N) (e : ep) : bool := e_loc e =? l.
 Definition plain_sum (ws : list N) : N := fold_left N.add ws 0.
 Definition sat_sum (ws : list N) : N := fold_left add_sat ws 0.
-Definition wrap_sum (ws : list N) : N := fold_left add_wrap ws 0.
 Definition group_of (es : list ep) (l : N) : N * list ep := (l, filter (in_loc l) es).
 
 (* --- EndpointsByNetworkFilter, sidecar proxy, ambient multi-network off, IP family unknown *)
@@ -464,16 +461,15 @@ Definition route_of (c : cla_in) (e : ep) : route :=
                        m_health := health_num (e_health e) |})
   else if negb (e_tls e) then Dropped
   else ViaGw gs w.
-Fixpoint gw_add_with (add : N -> N -> N) (g : gw) (w : N) (acc : list (gw * N)) : list (gw * N) :=
+Fixpoint gw_add (g : gw) (w : N) (acc : list (gw * N)) : list (gw * N) :=
   match acc with
-  | [] => [(g, add 0 w)]
-  | (g', w') :: acc' => if gw_eqb g g' then (g', add w' w) :: acc' else (g', w') :: gw_add_with add g w acc'
+  | [] => [(g, add_sat 0 w)]
+  | (g', w') :: acc' => if gw_eqb g g' then (g', add_sat w' w) :: acc' else (g', w') :: gw_add g w acc'
   end.
-(* splitWeightAmongGateways: gatewayWeights[gateway] += weightPerGateway *)
-Definition split_weight_with (add : N -> N -> N) (gs : list gw) (w : N) (acc : list (gw * N)) : list (gw * N) :=
+(* splitWeightAmongGateways: gatewayWeights[gateway], _ = addUint32(gatewayWeights[gateway], weightPerGateway) *)
+Definition split_weight (gs : list gw) (w : N) (acc : list (gw * N)) : list (gw * N) :=
   let per := w / N.of_nat (length gs) in
-  fold_left (fun acc g => gw_add_with add g per acc) gs acc.
-Definition split_weight := split_weight_with add_wrap.
+  fold_left (fun acc g => gw_add g per acc) gs acc.
 Definition gw_le (a b : gw * N) : bool :=
   (g_addr (fst a) <? g_addr (fst b)) || ((g_addr (fst a) =? g_addr (fst b)) && (g_port (fst a) <=? g_port (fst b))).
 Fixpoint ins_gw (x : gw * N) (l : list (gw * N)) : list (gw * N) :=
@@ -487,12 +483,12 @@ Definition gw_member (gwt : gw * N) : member :=
      m_weight := if snd gwt =? 0 then 1 else snd gwt; m_health := 0 |}.
 Definition direct_members (c : cla_in) (es : list ep) : list member :=
   flat_map (fun e => match route_of c e with Direct m => [m] | _ => [] end) es.
-Definition gw_weights_with (add : N -> N -> N) (c : cla_in) (es : list ep) : list (gw * N) :=
-  fold_left (fun acc e => match route_of c e with ViaGw gs w => split_weight_with add gs w acc | _ => acc end) es [].
-Definition gw_weights := gw_weights_with add_wrap.
+Definition gw_weights (c : cla_in) (es : list ep) : list (gw * N) :=
+  fold_left (fun acc e => match route_of c e with ViaGw gs w => split_weight gs w acc | _ => acc end) es [].
+(* refreshWeight: nil for a locality without members, else the saturating sum (addUint32) *)
 Definition net_filter_group (c : cla_in) (g : N * list ep) : lgroup :=
   let ms := direct_members c (snd g) ++ map gw_member (sort_gws (gw_weights c (snd g))) in
-  (fst g, match ms with [] => None | _ => Some (wrap_sum (map m_weight ms)) end, ms).
+  (fst g, match ms with [] => None | _ => Some (sat_sum (map m_weight ms)) end, ms).
 Definition plain_group (g : N * list ep) : lgroup :=
   let ms := map member_of (snd g) in
   (fst g, Some (sat_sum (map m_weight ms)), ms).
